@@ -5,7 +5,7 @@
 From Coq Require Import List Arith Bool Lia.
 From Oras Require Import Model.CopyImpl Proofs.CopyImplBase Proofs.CopyImplInv Proofs.CopyImplInv2 Proofs.CopyImplLive
   Proofs.CopyImplDeadlock Proofs.CopyImplFault Proofs.CopyImplTerm Proofs.CopyImplSucc Proofs.CopyImplSucc2
-  Proofs.CopyImplOrder Proofs.CopyImplNoFault.
+  Proofs.CopyImplOrder Proofs.CopyImplNoFault Model.CopyImplDst Proofs.CopyImplDst.
 Import ListNotations.
 
 Theorem C04_permits_conserved : forall succ K ext roots s, Reachable succ K ext roots s ->
@@ -145,6 +145,94 @@ Theorem C02_nofault_returns_nil_protocol : forall succ K ext roots,
 Proof. exact nofault_returns_nil. Qed.
 Print Assumptions C02_nofault_returns_nil_protocol.
 
+(* ------------------------------------------------------------------------------------------------
+   THE DESTINATION INSIDE THE PROTOCOL MODEL (Model/CopyImplDst.v): the state is the protocol state
+   plus the destination content d; dst.Exists answers what d holds, a push that returns nil stores
+   its node, a push may fail before or AFTER it stored (DPushStoredFail), nothing else writes d.
+   `DReachable succ K ext roots d0 x`: x is reachable from the call's initial state on a destination
+   holding d0, by any interleaving, any fault placement, any cancellation point.
+   `closed succ d`: every stored node has all its successors stored.  These are the clauses of C02
+   themselves, derived from the mechanism (done channels closed only on success, waits before the
+   push, cancel-cause contexts) - not from an acceptor whose guards are the property. *)
+
+(* the destination is link-closed at every instant - failed, cancelled, unfinished executions
+   included; a node that is Done in the tracker is stored; the initial content is never lost *)
+Theorem C02_dst_closed_always_protocol : forall succ K ext roots d0,
+  (forall n m, In m (succ n) -> m < n) ->
+  forall x, closed succ d0 -> DReachable succ K ext roots d0 x ->
+  closed succ (d_dst x) /\
+  (forall m, is_done (tracker (d_st x) m) = true -> d_dst x m = true) /\
+  (forall n, d0 n = true -> d_dst x n = true).
+Proof. exact dst_closed_always. Qed.
+Print Assumptions C02_dst_closed_always_protocol.
+
+(* no push stores a node before all of that node's successors are stored - also a push that stores
+   and then reports an error *)
+Theorem C02_push_stores_after_successors_protocol : forall succ K ext roots d0,
+  (forall n m, In m (succ n) -> m < n) ->
+  forall x dl x' n, closed succ d0 -> DReachable succ K ext roots d0 x ->
+  dstep succ x dl = Some x' -> stores (d_st x) dl = Some n ->
+  forall m, In m (succ n) -> d_dst x m = true.
+Proof. exact push_stores_after_successors. Qed.
+Print Assumptions C02_push_stores_after_successors_protocol.
+
+(* content enters the destination only through a push step of the call *)
+Theorem C02_dst_written_only_by_push_protocol : forall succ x dl x' n, dstep succ x dl = Some x' ->
+  d_dst x' n = true -> d_dst x n = true \/ stores (d_st x) dl = Some n.
+Proof. exact dst_written_only_by_push. Qed.
+Print Assumptions C02_dst_written_only_by_push_protocol.
+
+(* a successful return: everything reachable from every root is stored *)
+Theorem C02_success_complete_protocol : forall succ K ext roots d0,
+  (forall n m, In m (succ n) -> m < n) ->
+  forall x, closed succ d0 -> DReachable succ K ext roots d0 x -> result (d_st x) = Some false ->
+  forall r, In r roots -> forall n, reach succ r n -> d_dst x n = true.
+Proof. exact success_complete. Qed.
+Print Assumptions C02_success_complete_protocol.
+
+(* with the Exists answers determined by the destination the system still never deadlocks, and its
+   executions are as bounded as those of the protocol model *)
+Theorem C02_no_deadlock_dst_protocol : forall succ K ext roots d0,
+  (forall n m, In m (succ n) -> m < n) ->
+  forall x, 1 <= K -> DReachable succ K ext roots d0 x -> is_final (d_st x) = false ->
+  exists dl x', dprogress_label dl = true /\ dstep succ x dl = Some x'.
+Proof. exact dno_deadlock. Qed.
+Print Assumptions C02_no_deadlock_dst_protocol.
+
+Theorem C02_terminates_dst_protocol : forall succ K ext roots d0,
+  (forall n m, In m (succ n) -> m < n) -> forall N, (forall r, In r roots -> r < N) ->
+  forall ls x, drun succ (dinit K ext roots d0) ls = Some x -> length ls <= bound succ ext roots N.
+Proof. exact dterminates. Qed.
+Print Assumptions C02_terminates_dst_protocol.
+
+(* one call on a closed destination, end to end: closed throughout and nothing lost; once the call
+   has returned: a fault or cancellation => error; no fault => nil and the whole graph is stored *)
+Theorem C02_call_summary_protocol : forall succ K ext roots d0,
+  (forall n m, In m (succ n) -> m < n) ->
+  forall ls x, closed succ d0 -> drun succ (dinit K ext roots d0) ls = Some x ->
+  closed succ (d_dst x) /\
+  (forall n, d0 n = true -> d_dst x n = true) /\
+  (is_final (d_st x) = true ->
+     (existsb dis_fault ls = true -> result (d_st x) = Some true) /\
+     (existsb dis_fault ls = false -> result (d_st x) = Some false /\
+        forall r, In r roots -> forall n, reach succ r n -> d_dst x n = true)).
+Proof. exact call_summary. Qed.
+Print Assumptions C02_call_summary_protocol.
+
+(* retry: after ANY first call (failed, cancelled, abandoned at any point, any K / roots), a second
+   call without faults on what the first one left, once it has returned, returned nil and the
+   destination holds everything reachable from its roots *)
+Theorem C02_retry_completes_protocol : forall succ K1 ext1 roots1 K2 ext2 roots2 d0 ls1 x1 ls2 x2,
+  (forall n m, In m (succ n) -> m < n) -> closed succ d0 ->
+  drun succ (dinit K1 ext1 roots1 d0) ls1 = Some x1 ->
+  drun succ (dinit K2 ext2 roots2 (d_dst x1)) ls2 = Some x2 ->
+  existsb dis_fault ls2 = false -> is_final (d_st x2) = true ->
+  result (d_st x2) = Some false /\ closed succ (d_dst x2) /\
+  (forall r, In r roots2 -> forall n, reach succ r n -> d_dst x2 n = true) /\
+  (forall n, d0 n = true -> d_dst x2 n = true).
+Proof. exact retry_completes. Qed.
+Print Assumptions C02_retry_completes_protocol.
+
 (* ---- the hypotheses are satisfiable: a concrete DAG (4 -> 3,2 ; 3 -> 1,2 ; 2 -> 0,1), complete runs *)
 Definition ex_succ (n : nat) : list nat :=
   match n with 4 => [3; 2] | 3 => [1; 2] | 2 => [0; 1] | _ => [] end.
@@ -175,3 +263,25 @@ Proof. vm_compute. repeat split; reflexivity. Qed.
 (* a reachable non-final state (the hypothesis of C02_no_deadlock) *)
 Example ex_nonfinal : Reachable ex_succ 1 false [4] (init 1 false [4]) /\ is_final (init 1 false [4]) = false.
 Proof. split. apply R_init. reflexivity. Qed.
+
+(* the destination theorems' hypotheses are satisfiable: destination {0,1} (closed), first call with K = 1
+   whose first push stores node 2's successor... and then fails: the call returns an error, the
+   destination stays closed; the fault-free retry with K = 2 returns nil and everything is stored *)
+Example ex_closed_d0 : closed ex_succ (dst_of_list [0; 1]).
+Proof. intros n Hn m Hm. do 2 (destruct n as [|n]; [cbn in Hm; contradiction|]). cbn in Hn. discriminate. Qed.
+Example ex_fault_then_retry :
+  let d0 := dst_of_list [0; 1] in
+  let ls1 := snd (dsched ex_succ dpick_late 400 (dinit 1 false [4] d0) []) in
+  existsb dis_fault ls1 = true /\
+  match drun ex_succ (dinit 1 false [4] d0) ls1 with
+  | Some x1 =>
+      result (d_st x1) = Some true /\ map (d_dst x1) [0; 1; 2; 3; 4] = [true; true; true; false; false] /\
+      let ls2 := snd (dsched ex_succ dpick_progress 400 (dinit 2 false [4] (d_dst x1)) []) in
+      existsb dis_fault ls2 = false /\
+      match drun ex_succ (dinit 2 false [4] (d_dst x1)) ls2 with
+      | Some x2 => result (d_st x2) = Some false /\ forallb (d_dst x2) [0; 1; 2; 3; 4] = true /\ free (d_st x2) = 2
+      | None => False
+      end
+  | None => False
+  end.
+Proof. vm_compute. repeat split; reflexivity. Qed.
